@@ -15,10 +15,11 @@ Oracle: odxmodel.refdispatch (three-valued, independent).  See the module docstr
 from __future__ import annotations
 
 import itertools
+import json
 import warnings
 from typing import Any, Dict, List, Optional, Tuple
 
-from mcx.core import Ctx, Part, digest, pmap
+from mcx.core import Ctx, Part, digest, jdump, pmap
 from odxmodel import emit, refdispatch
 from odxmodel.harness import same_value
 from odxmodel.refdispatch import MATCH, MAY, MAYBE, MUST, MUSTNOT, NOMATCH
@@ -331,14 +332,14 @@ def check_layer(layer: Any, ref: refdispatch.RefLayer, shapes: List[str], ngnr: 
         layer._prefix_tree  # noqa  (cached; every decode needs it)
     except Exception as ex:  # noqa
         part.count("evaluations")
-        part.violation(f"C06/prefix-tree/raises-{type(ex).__name__}", case_of(shapes, ngnr, "decode", b"\x00"),
+        report(part, f"C06/prefix-tree/raises-{type(ex).__name__}", case_of(shapes, ngnr, "decode", b"\x00"),
                        f"layer with services {shapes}, {ngnr} gnrs: building the prefix tree raises {type(ex).__name__}: {str(ex)[:200]}")
         return
     # 2. service groups
     part.count("evaluations")
     bad = groups_diff(layer, ref)
     if bad:
-        part.violation("C06/service_groups/differs", case_of(shapes, ngnr, "groups", b""), bad)
+        report(part, "C06/service_groups/differs", case_of(shapes, ngnr, "groups", b""), bad)
     # 3. decode: all byte strings up to maxlen over the byte alphabet + own encodings
     alpha = byte_alphabet(ref)
     aset = set(alpha)
@@ -349,6 +350,7 @@ def check_layer(layer: Any, ref: refdispatch.RefLayer, shapes: List[str], ngnr: 
     msgs = itertools.chain((bytes(t) for n in range(0, maxlen + 1) for t in itertools.product(alpha, repeat=n)), own)
     decode = layer.decode
     n_calls = n_ok = n_dead = 0
+    seen_patterns: set = set()
     for M in msgs:
         obs = observe(decode, M)
         n_calls += 1
@@ -364,17 +366,19 @@ def check_layer(layer: Any, ref: refdispatch.RefLayer, shapes: List[str], ngnr: 
             n_ok += 1
         if res:
             for key, detail in res:
-                part.violation(key, case_of(shapes, ngnr, "decode", M), detail)
+                report(part, key, case_of(shapes, ngnr, "decode", M), detail)
         if dead:
             n_dead += 1
             continue
-        pat = pattern(exp)
-        if pat:
-            part.add("nontrivial", digest((pat, obs[0])))
-        for e in exp.values():
-            part.add("status", e["status"])
-            for c in list(e["own"].values()) + list(e["gnr"].values()):
-                part.add("classes", c[0] + (":" + c[2] if c[2] else ""))
+        pk = (pattern(exp), obs[0])
+        if pk not in seen_patterns:
+            seen_patterns.add(pk)
+            if pk[0]:
+                part.add("nontrivial", digest(pk))
+            for e in exp.values():
+                part.add("status", e["status"])
+                for c in list(e["own"].values()) + list(e["gnr"].values()):
+                    part.add("classes", c[0] + (":" + c[2] if c[2] else ""))
     part.count("evaluations", n_calls)
     part.count("decode_calls", n_calls)
     part.count("decode_reports", n_ok)
@@ -399,7 +403,7 @@ def check_layer(layer: Any, ref: refdispatch.RefLayer, shapes: List[str], ngnr: 
         if e["status"] == MUST:
             part.count("own_responses_must")
         for key, detail in judge(ref, P, obs, "decode_response", only=svc, via=R, solo=solo_fn(ngnr, "decode_response", P, R)):
-            part.violation(key, case_of(shapes, ngnr, "decode_response", P, R, svc), detail + f" [request {R.hex()} of {svc}]")
+            report(part, key, case_of(shapes, ngnr, "decode_response", P, R, svc), detail + f" [request {R.hex()} of {svc}]")
 
 
 def same_expect(a: Dict[str, Dict[str, Any]], b: Dict[str, Dict[str, Any]]) -> bool:
@@ -423,6 +427,30 @@ def groups_diff(layer: Any, ref: refdispatch.RefLayer) -> str:
 # ---------------------------------------------------------------------------------------------
 # units
 # ---------------------------------------------------------------------------------------------
+CAND = "__cand__"
+
+
+def report(part: Part, key: str, case: Dict[str, Any], detail: str) -> None:
+    """part.violation + remember the canonical (smallest, then lexicographically first) case of the key, so that
+    the recorded witness does not depend on the order in which workers finish (mcx keeps the first of equal size)."""
+    part.violation(key, case, detail)
+    j = jdump(case)
+    # simplest first: no global negative responses, few services, no empty-prefix service, short message
+    rank = (case["gnrs"], len(case["services"]), "Eb" in case["services"], len(case["msg"]), len(j))
+    cand = (rank, j, detail)
+    best = part.sets.get(CAND + key)
+    if not best or cand[:2] < next(iter(best))[:2]:
+        part.sets[CAND + key] = {cand}
+
+
+def canonical_witnesses(ctx: Ctx) -> None:
+    for name in [n for n in ctx.sets if n.startswith(CAND)]:
+        key = name[len(CAND):]
+        rank, j, detail = min(ctx.sets.pop(name))
+        if key in ctx.viol:
+            ctx.viol[key] = (len(j), json.loads(j), detail)
+
+
 def service_sets(maxsize: int) -> List[Tuple[str, ...]]:
     out: List[Tuple[str, ...]] = []
     for n in range(1, maxsize + 1):
@@ -436,8 +464,8 @@ def build(confs: List[Tuple[Tuple[str, ...], int]]) -> Tuple[Any, List[Dict[str,
     return db, specs
 
 
-def unit_fn(unit: Tuple[int, List[Tuple[Tuple[str, ...], int]]]) -> Part:
-    maxlen, confs = unit
+def unit_fn(unit: Tuple[int, List[Tuple[Tuple[str, ...], int]], bool]) -> Part:
+    maxlen, confs, selftest = unit
     part = Part()
     import odxtools.exceptions as oe
     oe.strict_mode = True
@@ -447,16 +475,41 @@ def unit_fn(unit: Tuple[int, List[Tuple[Tuple[str, ...], int]]]) -> Part:
         for i, ((shapes, ngnr), spec) in enumerate(zip(confs, specs)):
             layer = db.diag_layers[spec["name"]]
             ref = refdispatch.RefLayer(spec)
-            # (the shortcuts of the reference are compared with its plain walk on the first layer of every unit)
-            check_layer(layer, ref, list(shapes), ngnr, maxlen, part, selftest=(i == 0))
-            if i == 0:
+            # (the shortcuts of the reference are compared with its plain walk on the first layer of the self-test units)
+            check_layer(layer, ref, list(shapes), ngnr, maxlen, part, selftest=(selftest and i == 0))
+            if selftest and i == 0:
                 part.count("reference_selftest_layers")
             for sh in shapes:
                 part.add("shapes", sh)
             part.add("gnr_configs", ngnr)
-    if len(part.samples) < 2 and confs:
-        part.sample({"services": list(confs[0][0]), "gnrs": confs[0][1], "byte_alphabet": [f"{b:02x}" for b in byte_alphabet(refdispatch.RefLayer(specs[0]))]})
     return part
+
+
+SAMPLES = [(("S10b", "S10w"), 0, "decode", "100304", None), (("S1001", "S1002", "S10b"), 1, "decode", "7f1031", None),
+           (("S22w", "S22F190", "S22F1"), 2, "decode", "62f19000", None), (("S10bc", "S1001b"), 0, "decode", "100103", None),
+           (("S1001", "S10b"), 0, "decode_response", "5001", "1001"), (("S22F190", "S1001b", "S10w"), 2, "decode", "7f2212", None)]
+
+
+def samples(ctx: Ctx) -> None:
+    """a few real cases (fixed list, evaluated in the master so that the evidence does not depend on the seed)"""
+    with warnings.catch_warnings():
+        warnings.simplefilter("ignore")
+        for shapes, ngnr, op, m, r in SAMPLES:
+            db, specs = build([(shapes, ngnr)])
+            layer = db.diag_layers[specs[0]["name"]]
+            ref = refdispatch.RefLayer(specs[0])
+            M = bytes.fromhex(m)
+            try:
+                layer._prefix_tree  # noqa
+                obs = observe(layer.decode, M) if op == "decode" else observe(layer.decode_response, M, bytes.fromhex(r))
+            except Exception as ex:  # noqa
+                obs = ("exc:" + type(ex).__name__, str(ex)[:100])
+            exp = ref.expect(M)
+            ctx.sample({"services": list(shapes), "gnrs": ngnr, "op": op, "msg": m, "request": r,
+                        "byte_alphabet": [f"{b:02x}" for b in byte_alphabet(ref)],
+                        "reference": {s: {"status": e["status"], "objects": {o: c[0] for o, c in list(e["own"].items()) + list(e["gnr"].items()) if c[0] != NOMATCH}}
+                                      for s, e in exp.items()},
+                        "odxtools": show_obs(obs)})
 
 
 def run(ctx: Ctx) -> None:
@@ -466,12 +519,13 @@ def run(ctx: Ctx) -> None:
     confs = [(s, g) for s in sets for g in (0, 1, 2)]
     # big layers first, chunks sized by expected work (alphabet^maxlen grows with the number of services)
     confs.sort(key=lambda c: (-len(c[0]), c[1], c[0]))
-    units: List[Tuple[int, List[Tuple[Tuple[str, ...], int]]]] = []
+    units: List[Tuple[int, List[Tuple[Tuple[str, ...], int]], bool]] = []
     chunk = {1: 36, 2: 12, 3: 8} if ctx.quick else {1: 36, 2: 24, 3: 6}
     i = 0
     while i < len(confs):
         n = chunk[len(confs[i][0])]
-        units.append((maxlen, confs[i:i + n]))
+        # (reference self-test on the first layer of every unit (quick) / every 5th unit (thorough))
+        units.append((maxlen, confs[i:i + n], ctx.quick or len(units) % 5 == 0))
         i += n
     ctx.bounds = {"service_shapes": SHAPE_NAMES, "services_per_layer": f"1..{maxset} (all ordered sets)",
                   "global_negative_responses": "0, 1 (with MATCHING-REQUEST-PARAM), 2 (second one without)",
@@ -491,6 +545,8 @@ def run(ctx: Ctx) -> None:
         "descriptions: whole-byte A_UINT32 constants/values, IDENTICAL compu methods; a request without any parameter is not in the alphabet",
     ]
     pmap(ctx, unit_fn, units)
+    canonical_witnesses(ctx)
+    samples(ctx)
     ctx.counts["traces_validated_against_impl"] = ctx.counts.get("decode_calls", 0) + ctx.counts.get("decode_response_calls", 0)
     ctx.counts["states"] = ctx.counts.get("layers", 0)
     ctx.counts["transitions"] = ctx.counts.get("evaluations", 0)
